@@ -17,7 +17,8 @@
 //	agr <body>                                (round 4) the three real consumers on ESC [ body m a from the zero style;
 //	                                          impl = style of ParseStyledString's cell | style of NewStyledString's cell | emulator pen
 //	rdf <caps> <table> <cell>*                (round 4) the SGR and text bytes of a real rendered frame of the cells fed to the real
-//	                                          ParseStyledString and NewStyledString; impl = cells | cells; table = cluster table of that string
+//	                                          ParseStyledString, NewStyledString and (through the real parser) the emulator's sgr(); impl = cells | cells | cells;
+//	                                          table = cluster table of that string
 //
 // cell = hex(grapheme):fg,bg,ul,ulstyle,attr   tok = S<params text> | T<hex(grapheme)>
 // caps bit 0 = rgb, bit 1 = styledUnderlines, bit 2 = VAXIS_FORCE_LEGACY_SGR applied.
@@ -385,7 +386,33 @@ func (e *env) renderSgrText(caps int, cells []vaxis.Cell) (string, error) {
 	return s, nil
 }
 
-// doRdf: a real rendered frame read back by the two real string parsers.
+// emuCells: the string through the real ansi parser into the embedded terminal's sgr(): one cell per Print with the pen at that moment.
+func (e *env) emuCells(s string) string {
+	return e.stable(func() string {
+		p := ansi.NewParser(strings.NewReader(s))
+		defer p.Close()
+		pen := vaxis.Style{}
+		var cells []vaxis.Cell
+		for seq := range p.Next() {
+			switch q := seq.(type) {
+			case ansi.Print:
+				cells = append(cells, withG(q.Grapheme, pen))
+			case ansi.CSI:
+				if q.Final == 'm' && len(q.Intermediate) == 0 {
+					cp := make([][]int, len(q.Parameters))
+					for i, pr := range q.Parameters {
+						cp[i] = append([]int(nil), pr...)
+					}
+					pen = term.VerifC18Sgr(e.emu, pen, cp)
+				}
+			}
+			p.Finish(seq)
+		}
+		return cellsStr(cells)
+	})
+}
+
+// doRdf: a real rendered frame read back by the two real string parsers and by the embedded terminal's sgr().
 func (e *env) doRdf(caps int, cells []vaxis.Cell) (res string, str string) {
 	if err := e.setLegacy(caps&4 != 0); err != nil {
 		return "error:" + err.Error(), ""
@@ -398,7 +425,7 @@ func (e *env) doRdf(caps int, cells []vaxis.Cell) (res string, str string) {
 			return
 		}
 		str = s
-		res = e.doDecB("cells", vaxis.Style{}, s) + "|" + e.doDecB("ss", vaxis.Style{}, s)
+		res = e.doDecB("cells", vaxis.Style{}, s) + "|" + e.doDecB("ss", vaxis.Style{}, s) + "|" + e.emuCells(s)
 	})
 	if panicked {
 		return "panic", str
@@ -1281,7 +1308,7 @@ func (e *env) genAgr(rng *gen.Rng) {
 	}
 	n := 3000
 	if e.r.Thorough {
-		n = 120000
+		n = 60000
 	}
 	num := func() string {
 		switch rng.Intn(6) {
